@@ -294,7 +294,7 @@ def invMod2kVartimeT (n k : Nat) : Trace := (invMod2kVartime n [] k).tr
   unfold invMod2kVartimeT invMod2kVartime; leak_simp
   apply forN_tr_congr; intro i s s'; leak_simp; simp only [invStepB_tr, shlVartime_tr, uselect_tr, ubitor_tr]
 
-/-! ### Montgomery multiplication, exponentiation -/
+/-! ### Montgomery reduction -/
 def redcLowerLoopT (n i : Nat) : Trace := (redcLowerLoop n i zero [] [] zero).tr
 @[simp] theorem redcLowerLoop_tr (n i : Nat) (u : Sec) (m l : List Sec) (c : Sec) : (redcLowerLoop n i u m l c).tr = redcLowerLoopT n i := by
   unfold redcLowerLoopT redcLowerLoop; leak_loop
@@ -311,46 +311,6 @@ def montgomeryReductionT (n : Nat) : Trace := (montgomeryReduction n [] [] [] ze
 @[simp] theorem montgomeryReduction_tr (n : Nat) (l u m : List Sec) (x : Sec) :
     (montgomeryReduction n l u m x).tr = montgomeryReductionT n := by
   unfold montgomeryReductionT montgomeryReduction; leak_simp; simp only [redcInner_tr, subModWithCarry_tr]
-
-def mulMontT (n : Nat) : Trace := (mulMont n [] [] [] zero).tr
-@[simp] theorem mulMont_tr (n : Nat) (a b m : List Sec) (x : Sec) : (mulMont n a b m x).tr = mulMontT n := by
-  unfold mulMontT mulMont; leak_simp; simp only [mulSchoolbook_tr, montgomeryReduction_tr]
-
-def computePowersT (n : Nat) : Trace := (computePowers n [] [] [] zero).tr
-@[simp] theorem computePowers_tr (n : Nat) (x m o : List Sec) (v : Sec) : (computePowers n x m o v).tr = computePowersT n := by
-  unfold computePowersT computePowers
-  apply forRange_tr_congr; intro i s s'; leak_simp; simp only [mulMont_tr]
-
-def powLookupT (n : Nat) : Trace := (powLookup n [] zero).tr
-@[simp] theorem powLookup_tr (n : Nat) (ps : List (List Sec)) (i : Sec) : (powLookup n ps i).tr = powLookupT n := by
-  unfold powLookupT powLookup
-  apply forRange_tr_congr; intro i s s'; leak_simp; simp only [uselect_tr]
-
-def squaringsT (n : Nat) : Trace := (squarings n [] [] zero).tr
-@[simp] theorem squarings_tr (n : Nat) (z m : List Sec) (v : Sec) : (squarings n z m v).tr = squaringsT n := by
-  unfold squaringsT squarings
-  apply forN_tr_congr; intro i s s'; leak_simp; simp only [mulSchoolbook_tr, montgomeryReduction_tr]
-
-def powWindowT (n limbNum : Nat) (first : Bool) : Trace := (powWindow n [] [] [] zero limbNum 0 first 0 []).tr
-@[simp] theorem powWindow_tr (n : Nat) (ps : List (List Sec)) (e m : List Sec) (v : Sec) (ln wn : Nat) (first : Bool) (fm : Nat)
-    (z : List Sec) : (powWindow n ps e m v ln wn first fm z).tr = powWindowT n ln first := by
-  unfold powWindowT powWindow; leak_simp; simp only [squarings_tr, powLookup_tr, mulMont_tr]
-
-def powLoopT (n sl sw : Nat) : Trace := (powLoop n [] [] [] zero sl sw 0 []).tr
-@[simp] theorem powLoop_tr (n : Nat) (ps : List (List Sec)) (e m : List Sec) (v : Sec) (sl sw fm : Nat) (z : List Sec) :
-    (powLoop n ps e m v sl sw fm z).tr = powLoopT n sl sw := by
-  unfold powLoopT powLoop
-  apply forDown_tr_congr; intro i s s'
-  apply forDown_tr_congr; intro j t t'
-  simp only [powWindow_tr]
-
-def powBoundedExpT (n ebits : Nat) : Trace := (powBoundedExp n [] [] ebits [] [] zero).tr
-@[simp] theorem powBoundedExp_tr (n : Nat) (x e : List Sec) (ebits : Nat) (m o : List Sec) (v : Sec) :
-    (powBoundedExp n x e ebits m o v).tr = powBoundedExpT n ebits := by
-  unfold powBoundedExpT powBoundedExp; leak_simp; simp only [computePowers_tr, powLoop_tr]
-
-@[simp] theorem pow_tr (n : Nat) (x e m o : List Sec) (v : Sec) : (pow n x e m o v).tr = powBoundedExpT n (64 * n) := by
-  unfold pow; rw [powBoundedExp_tr]
 
 /-! ### square root -/
 def sqrtRoundT (n : Nat) : Trace := (sqrtRound n [] ([], [])).tr
